@@ -104,34 +104,34 @@ func init() {
 				}
 				uds = &nasType.UplinkDataStatus{Iei: iei, Len: uint8(ln), Buffer: data}
 			}
-			return okHex(nasTestpacket.GetRegistrationRequest(aU8(a[0]), mi, nssai, sec, cap5, aOptBytes(a[5]), uds), nil)
+			return okHex(retainBytes(nasTestpacket.GetRegistrationRequest(aU8(a[0]), mi, nssai, sec, cap5, aOptBytes(a[5]), uds)), nil)
 		case "GetPduSessionEstablishmentRequest":
 			need(1)
-			return okHex(nasTestpacket.GetPduSessionEstablishmentRequest(aU8(a[0])), nil)
+			return okHex(retainBytes(nasTestpacket.GetPduSessionEstablishmentRequest(aU8(a[0]))), nil)
 		case "GetPduSessionModificationRequest":
 			need(1)
-			return okHex(nasTestpacket.GetPduSessionModificationRequest(aU8(a[0])), nil)
+			return okHex(retainBytes(nasTestpacket.GetPduSessionModificationRequest(aU8(a[0]))), nil)
 		case "GetPduSessionReleaseRequest":
 			need(1)
-			return okHex(nasTestpacket.GetPduSessionReleaseRequest(aU8(a[0])), nil)
+			return okHex(retainBytes(nasTestpacket.GetPduSessionReleaseRequest(aU8(a[0]))), nil)
 		case "GetPduSessionReleaseComplete":
 			need(1)
-			return okHex(nasTestpacket.GetPduSessionReleaseComplete(aU8(a[0])), nil)
+			return okHex(retainBytes(nasTestpacket.GetPduSessionReleaseComplete(aU8(a[0]))), nil)
 		case "GetUlNasTransport_PduSessionReleaseRequest":
 			need(1)
-			return okHex(nasTestpacket.GetUlNasTransport_PduSessionReleaseRequest(aU8(a[0])), nil)
+			return okHex(retainBytes(nasTestpacket.GetUlNasTransport_PduSessionReleaseRequest(aU8(a[0]))), nil)
 		case "GetUlNasTransport_PduSessionEstablishmentRequest":
 			need(5)
-			return okHex(nasTestpacket.GetUlNasTransport_PduSessionEstablishmentRequest(aU8(a[0]), aU8(a[1]), string(aHex(a[2])), aSnssai(a[3], a[4])), nil)
+			return okHex(retainBytes(nasTestpacket.GetUlNasTransport_PduSessionEstablishmentRequest(aU8(a[0]), aU8(a[1]), string(aHex(a[2])), aSnssai(a[3], a[4]))), nil)
 		case "GetUlNasTransport_PduSessionModificationRequest":
 			need(5)
-			return okHex(nasTestpacket.GetUlNasTransport_PduSessionModificationRequest(aU8(a[0]), aU8(a[1]), string(aHex(a[2])), aSnssai(a[3], a[4])), nil)
+			return okHex(retainBytes(nasTestpacket.GetUlNasTransport_PduSessionModificationRequest(aU8(a[0]), aU8(a[1]), string(aHex(a[2])), aSnssai(a[3], a[4]))), nil)
 		case "GetUlNasTransport_PduSessionReleaseComplete":
 			need(5)
-			return okHex(nasTestpacket.GetUlNasTransport_PduSessionReleaseComplete(aU8(a[0]), aU8(a[1]), string(aHex(a[2])), aSnssai(a[3], a[4])), nil)
+			return okHex(retainBytes(nasTestpacket.GetUlNasTransport_PduSessionReleaseComplete(aU8(a[0]), aU8(a[1]), string(aHex(a[2])), aSnssai(a[3], a[4]))), nil)
 		case "GetServiceRequest":
 			need(1)
-			return okHex(nasTestpacket.GetServiceRequest(aU8(a[0])), nil)
+			return okHex(retainBytes(nasTestpacket.GetServiceRequest(aU8(a[0]))), nil)
 		case "GetAuthenticationResponse":
 			need(2)
 			eap := aHex(a[1])
@@ -139,13 +139,13 @@ func init() {
 			if len(eap) > 0 {
 				es = base64.StdEncoding.EncodeToString(eap)
 			}
-			return okHex(nasTestpacket.GetAuthenticationResponse(exact(aHex(a[0])), es), nil)
+			return okHex(retainBytes(nasTestpacket.GetAuthenticationResponse(exact(aHex(a[0])), es)), nil)
 		case "GetRegistrationComplete":
 			need(1)
-			return okHex(nasTestpacket.GetRegistrationComplete(aOptBytes(a[0])), nil)
+			return okHex(retainBytes(nasTestpacket.GetRegistrationComplete(aOptBytes(a[0]))), nil)
 		case "GetSecurityModeComplete":
 			need(1)
-			return okHex(nasTestpacket.GetSecurityModeComplete(aOptBytes(a[0])), nil)
+			return okHex(retainBytes(nasTestpacket.GetSecurityModeComplete(aOptBytes(a[0]))), nil)
 		case "GetDeregistrationRequest":
 			need(4)
 			iei, ln, data, isNil := aIE(a[3])
@@ -153,7 +153,7 @@ func init() {
 				panic(badArg{})
 			}
 			mi := nasType.MobileIdentity5GS{Iei: iei, Len: uint16(ln), Buffer: data}
-			return okHex(nasTestpacket.GetDeregistrationRequest(aU8(a[0]), aU8(a[1]), aU8(a[2]), mi), nil)
+			return okHex(retainBytes(nasTestpacket.GetDeregistrationRequest(aU8(a[0]), aU8(a[1]), aU8(a[2]), mi)), nil)
 		}
 		panic(badArg{})
 	})
